@@ -960,6 +960,25 @@ func checksumPrograms() []*dsl.Program {
 			mk(c.n+"-"+sp, dsl.Root("Msg", dsl.Sc("u32", "Seq"), dsl.Ds("Text"), ck, dsl.Sc("u8", "After"), dsl.In("Inner", dsl.Sc("u8", "X"), dsl.Ck(c.t, "Sum2", c.alg))))
 		}
 	}
+	// a field with an explicit type whose NAME is also the name of a MetaData entry of another type (the entry is
+	// what an untyped field of that name would take its type from): the declared type wins, in both placements -
+	// for a calculated field, a length field and a plain scalar alike
+	for _, pre := range []bool{false, true} {
+		sp := "inline"
+		if pre {
+			sp = "prefixed"
+		}
+		ck := dsl.Ck("u32", "Sum", "SUMU32")
+		ck.Prefixed = pre
+		lf := dsl.Lo("u32", "Len", "Body")
+		lf.Prefixed = pre
+		p := &dsl.Program{Name: "K/fields-named-like-metadata-entries-" + sp,
+			Meta: []*dsl.MetaBlock{{Name: "Dict", Entries: []*dsl.MetaEntry{{Name: "Sum", Kind: dsl.Scalar, Type: "u16", Doc: "a 16-bit sum used elsewhere"}, {Name: "Len", Kind: dsl.Scalar, Type: "u8", Doc: "a short length"}, {Name: "Px", Kind: dsl.Scalar, Type: "u64", Doc: "price"}}}},
+			Packets: []*dsl.Packet{dsl.Root("Msg", dsl.Sc("u16", "Kind"), lf, dsl.Mt("Kind", "Body", dsl.K("Alpha", "1"), dsl.K("Other", "2")), dsl.Sc("u32", "Px"), ck, dsl.Sc("u8", "After")),
+				dsl.Pk("Alpha", dsl.Sc("u32", "A1"), dsl.Ds("A2")), dsl.Pk("Other", dsl.Mr("Sum", ""), dsl.Mr("Len", ""), dsl.Mr("Px", ""))}}
+		p.Opts = dsl.TargetOpts("gkmetanames" + sp)
+		out = append(out, p)
+	}
 	mk("inline-only-unregistered", dsl.Root("Msg", dsl.Sc("u32", "Seq"), dsl.In("Inner", dsl.Sc("u8", "X"), dsl.Ck("u16", "Sum", "NOSUCHU16"))))
 	return out
 }
